@@ -300,7 +300,8 @@ def THRESHOLD_EST(eye_obj: eye, M: int):
     s1 = eye_obj.s1
 
     r = np.linspace(mu0, mu1, 1000)
-    umbral = r[np.argmin(1 - Q((r-mu1)/s1) * (1-Q((r-mu0)/s0))**(M-1))]
+    # 1 - P(ON above r) * P(OFF below r)**(M-1), written without the subtraction from one (which has no resolution below 1e-16)
+    umbral = r[np.argmin(Q((mu1-r)/s1) - Q((r-mu1)/s1) * np.expm1((M-1)*np.log1p(-Q((r-mu0)/s0))))]
     return umbral
 
 
